@@ -264,7 +264,9 @@ def c10_absolute(w, act, st, rec, fresh, recF):
             w.probe("c10_unlabelled_nonzero")
     # guesses never change the objective or the constraints (not judged with a built-in DAE integrator and a guess for
     # an algebraic variable: that guess is the integrator's own starting value and moves its result within its tolerance)
-    builtin_dae = m.get("intg") in ("idas", "collocation", "cvodes") and any(spec.sym(x) and spec.sym(x)["kind"] == "algebraic" for x, _ in spec.initial)
+    # (nor with any built-in integrator: its rootfinder / step control keeps memory between calls, so what it returns at a
+    #  probe point depends on the evaluation at the starting point that came before -- seen: [0, 0] against [nan, nan])
+    builtin_dae = m.get("intg") in ("idas", "collocation", "cvodes")
     if spec.initial and not builtin_dae:
         sp2 = spec.clone()
         sp2.initial = []
